@@ -122,6 +122,32 @@ CHECKS.update({
             'Byte comparison uses three fixed models and one calibration result.',
             '7/C12'),
 })
+CHECKS.update({
+    'C09': (E2, 'exhaustive enumeration of calibration histories (all datasets up to '
+            'length 3 x all splits into resumed sessions) on the real calibrate(), '
+            'lock-step with a reference moving-average model',
+            'For every model (all 21 ops at depth 1, all pairs at depth 2) x '
+            'recipe needing calibration x every input sequence over 3 values up '
+            'to length 3 x every composition into resumed sessions: the one-pass '
+            'result equals the reference EMA over my own per-sample interpreter '
+            'reads (<=2 ulp), constants equal true min/max, every split history '
+            'equals the single pass bitwise, the previous result passed in is '
+            'unchanged, and the key set equals the tensors of selected operators.',
+            'Trusted: own LiteRT interpreter reads; reference EMA in float32.',
+            '7/C09'),
+    'C14': (E2, 'explicit enumeration of all interleavings of API calls (bounded '
+            'length) on two Quantizer objects sharing calibration results; deep '
+            'snapshots + fresh-process differential',
+            'All interleavings of length <=3 (quick) / <=4 (thorough) of load/'
+            'update/calibrate/quantize/validate on two Quantizer objects and 3 '
+            'models: every caller-owned object compares equal to its snapshot '
+            'after every call; every quantize() result equals the bytes computed '
+            'by a fresh process (forked from a zygote that never called the '
+            'library) from the snapshotted arguments; a fixed batch is re-run in '
+            'new processes under three PYTHONHASHSEED values.',
+            'Fresh process = fork of a process that imported but never called the '
+            'library; real new processes only for the hash-seed batch.', '7/C14'),
+})
 NOT_YET = {
 }
 
